@@ -169,6 +169,19 @@ check("C18",
       "promotion, slice-through-reduction (rewrite; see C02).",
       "DESIGN.md 6 C18")
 
+check("C11",
+      "Solver-decided for the assignment arithmetic: the real setitem_array_expr / parse_and_validate_assignment / "
+      "parse_assignment_indices (via the real normalize_index) run on 1-D/2-D arrays with symbolic chunk sizes and symbolic, "
+      "unbounded slice bounds and integer indices (steps +-1..2/3, every None-pattern; values of exact shape, length-1 axes, "
+      "scalar, trailing-axes only); the emitted graph (setitem on touched blocks, aliases elsewhere) is executed on symbolic "
+      "arrays with NumPy assignment semantics and the assembled result equals, at a skolem position, NumPy's result of the same "
+      "assignment (selected positions hold the broadcast value element of the right rank, reversed for negative steps; all "
+      "other positions keep x); IndexError iff an integer is out of range; no spurious ValueError.",
+      "Trusted: z3, symx shims, mutable symbolic-array model of x[idx] = v. NOT decided (stated): that previously derived "
+      "collections keep their value, out=, compute_chunk_sizes, that source buffers are not modified (object identity / "
+      "aliasing of NumPy buffers inside kernels: no arithmetic to encode), array/boolean/dask keys.",
+      "DESIGN.md 6 C11")
+
 ALL = [f"C{i:02d}" for i in range(1, 30)]
 
 
@@ -188,7 +201,7 @@ def main():
                       kind_free_text="proxy-based symbolic executor for Python function objects over z3 (path enumeration by re-execution, solver-decided obligations, concrete replay)")],
         checks=[CHECKS[k] for k in sorted(CHECKS)],
         notes="All checks: ./check <ID> [--tier quick|thorough]; exit 0 pass, 1 VIOLATION, 2 inconclusive/harness error. "
-              "Fix commits in /repo: 15fbc37 (normalize_slice), bfce058 (_bound_degree budget), 82ae11e (normalize_chunks negatives), 5b1d580 (no-op rechunk lowering with balance=True).",
+              "Fix commits in /repo: 15fbc37 (normalize_slice), bfce058 (_bound_degree budget), 82ae11e (normalize_chunks negatives), 5b1d580 (no-op rechunk lowering with balance=True), 9952173 (assignment through an empty reversed slice), 0adac22 (moment_combine empty blocks), f45e2be (split_every dict < 2), 99be851 (arg-reduction tie order over all axes).",
         not_applicable=na,
     )
     json.dump(m, open("MANIFEST.json", "w"), indent=1)
